@@ -131,6 +131,30 @@ func checkC05(c *km.Ctx) {
 				req = "only the login, federated-callback and CLI-document handlers create sessions"
 			}
 			r.Add("R-C05-1", km.FuncName(caller), "fresh session level", posOf(c, cs.Instr), req, got, known && isConst && got == want)
+			if km.NameOf(caller) == "SendAuthDocumentHandler" {
+				// the CLI session is minted from a token presented by a logged-in browser: only when the token
+				// names the very user the browser session belongs to (otherwise one user's session turns
+				// another user's token into a session of its own)
+				sameUser := km.Prim{Name: "token user == authenticated user", Rel: func(f km.Fact, resolve func(ssa.Value) ssa.Value) bool {
+					if f.Op != token.EQL || f.X == nil || f.Y == nil {
+						return false
+					}
+					for _, pr := range [][2]ssa.Value{{f.X, f.Y}, {f.Y, f.X}} {
+						if !isAuthUser(resolve(pr[0])) {
+							continue
+						}
+						o := resolve(pr[1])
+						base, fld, ok := km.FieldOfLoad(km.Unwrap(o))
+						if ok && km.RecordedField(base.Type(), fld) == "Username" && km.NamedTypeOf(base.Type()) == KMD+".authInfo" && !isAuthUser(o) {
+							return true
+						}
+					}
+					return false
+				}}
+				st := c.F.At(cs.Instr)
+				okU := st.All(func(k km.Conj) bool { return s.Holds(k, sameUser) })
+				r.Add("R-C05-3", km.FuncName(caller), "CLI session for the token's own user", posOf(c, cs.Instr), "the presented token names the authenticated user (compared before the session is minted)", clipS(st.String(), 240), okU)
+			}
 		}
 	}
 
@@ -170,6 +194,10 @@ func checkC05(c *km.Ctx) {
 	}
 
 	checkOneTime(c, s, upd, isAuthUser)
+	// the stored TOTP counter, the cleared bootstrap OTP and the disabled flag of a token are consumed only if
+	// they reach the stored profile: gob drops unexported fields without a word
+	checkGobStructs(c, "R-C05-4")
+	checkChallengeFresh(c, "R-C05-4")
 	checkPushRecords(c)
 	checkChallengeAtomic(c, km.NewLockSets(), "R-C05-4")
 }
@@ -866,3 +894,58 @@ func checkPushRecords(c *km.Ctx) {
 }
 
 func cellOrigin(v ssa.Value) ssa.Value { return km.CellOrigin(v) }
+
+// checkChallengeFresh: a challenge record put into the pending table is built in the call that stores it - new
+// challenge, new deadline. A record taken from the table and stored again with a later deadline keeps an old
+// challenge answerable for as long as somebody keeps asking.
+func checkChallengeFresh(c *km.Ctx, rule string) {
+	n := 0
+	for _, fn := range c.P.AllFuncs {
+		if fn.Pkg == nil || !pkgIsKMD(fn.Pkg) {
+			continue
+		}
+		km.Instrs(fn, func(in ssa.Instruction) {
+			mu, ok := in.(*ssa.MapUpdate)
+			if !ok || !mentionsField(mu.Map, "localAuthData") {
+				return
+			}
+			n++
+			seen := map[ssa.Value]bool{}
+			old := ""
+			var walk func(v ssa.Value, d int)
+			walk = func(v ssa.Value, d int) {
+				if v == nil || seen[v] || d > 8 {
+					return
+				}
+				seen[v] = true
+				switch x := v.(type) {
+				case *ssa.Lookup:
+					if mentionsField(x.X, "localAuthData") {
+						old = posOf(c, x)
+					}
+				case *ssa.Extract:
+					walk(x.Tuple, d+1)
+				case *ssa.Phi:
+					for _, e := range x.Edges {
+						walk(e, d+1)
+					}
+				case *ssa.UnOp:
+					walk(x.X, d+1)
+				case *ssa.MakeInterface:
+					walk(x.X, d+1)
+				case *ssa.Alloc:
+					for _, ref := range *x.Referrers() {
+						if st, ok := ref.(*ssa.Store); ok && st.Addr == ssa.Value(x) {
+							walk(st.Val, d+1)
+						}
+					}
+				}
+			}
+			walk(mu.Value, 0)
+			c.R.Add(rule, km.FuncName(fn), "pending challenge record stored", posOf(c, in), "the record is built by this call (new challenge and deadline), not an earlier record re-stamped", "earlier record read at "+old, old == "")
+		})
+	}
+	if n == 0 {
+		c.R.AnchorLost(rule, "stores into the pending challenge table")
+	}
+}
